@@ -126,7 +126,46 @@ def run(prog, rep, tier, repo):
         key = 'routing:%s:operands' % name
         ok = all(c.args[0] == a for c in lus)
         (rep.ok if ok and lus else rep.viol)('routing', key, 'LU route factorises the same matrix `a`' if ok and lus else 'LU route does not factorise `a`', site_of(f.body))
-    rep.floor('routing', 6, 'solve, solve_sys x (predicate, fallback, operands)')
+    # every value the slice-level solvers return comes out of one of the two factorisation routes: a return site that computes the solution by
+    # other means (a closed form for small systems, say) is a third route with its own rounding behaviour -- routing independence and the
+    # residual bound are then not inherited from Cholesky / pivoted LU
+    for name in ('solve', 'solve_sys'):
+        k = U + name
+        f = prog.func(k)
+        if f is None:
+            continue
+        key = 'routing:%s:sources' % name
+        a = ('arg', 1, f.names.get(1))
+        b = ('arg', 2, f.names.get(2))
+        calls = _calls_with_closures(prog, f)
+        route_calls = [c for c in calls if c.path in (D + 'cholesky::cholesky_solve', D + 'lu::lu_solve')]
+        sites = [(f.rvalue_term(d[3], d[1]) if d[0] == 'assign' else f.call_term(d[2], d[1]), d[1]) for d in f._defs.get(0, [])]
+        direct = []
+        for v, bb in sites:
+            if any(tag(z) == 'call' and z[1] in (D + 'cholesky::cholesky_solve', D + 'lu::lu_solve') for z in subterms(v)):
+                continue
+            if tag(v) == 'call' and short(v[1]) in ('box_assume_init_into_vec_unsafe', 'into_vec'):
+                # `vec![e0, e1, ..]`: the literal's elements are stored into the freshly boxed array the call wraps
+                lits = [st.value for st in f.stores() if tag(st.value) == 'agg' and st.value[1] == 'array' and
+                        any(z == v[2][0] for z in subterms(st.target))] if v[2] else []
+                if lits:
+                    v = lits[0]
+            if tag(v) == 'local' or any(tag(z) == 'local' for z in subterms(v)):
+                continue          # a buffer filled elsewhere (the solutions vector): covered by the layout rule
+            reads_a = any(tag(z) == 'index' and z[1] == a for z in subterms(v))
+            reads_b = any(tag(z) == 'index' and z[1] == b for z in subterms(v))
+            arith = any(tag(z) == 'bin' and z[1] in ('Div', 'Mul', 'Sub') and len(z) > 4 and z[4] == 'f64' for z in subterms(v))
+            if reads_a and reads_b and arith:
+                direct.append((v, bb))
+        if direct:
+            rep.viol('routing', key, '%s has a return site that computes the solution directly from the entries of a and b (%s ..) without Cholesky or pivoted LU: '
+                     'a third route with its own rounding error (no pivoting), so the answer depends on which route a system takes' % (name, show(direct[0][0])[:70]),
+                     site_of(f.body))
+        elif route_calls:
+            rep.ok('routing', key, 'every returned solution comes from cholesky_solve / lu_solve')
+        else:
+            rep.undecided('routing', key, 'no factorisation route call found', site_of(f.body), proof=False)
+    rep.floor('routing', 8, 'solve, solve_sys x (predicate, fallback, operands, sources)')
 
     # ------------------------------------------------------------------ Matrix solvers route through Matrix::lu only
     for tr in (V, M):
